@@ -4,12 +4,18 @@
 (* handling (C15): accept loop (temporary error => back off and continue;  *)
 (* other error => return), one serve goroutine per accepted connection     *)
 (* with a deferred recover + transport Close, read errors other than EOF   *)
-(* reported to the handler's ErrorReporter.                                *)
+(* reported to the handler's ErrorReporter.  ServeMux.Error OFFERS the     *)
+(* report: a non-blocking send on a one-slot channel (slot), so a report   *)
+(* offered while the previous one has not been received is dropped.        *)
+(* SequencedBad = TRUE: the environment delivers the next undecodable      *)
+(* input only after the previous report was received (what the harness     *)
+(* does); then no report is lost (NoDrop).  FALSE is a sensitivity         *)
+(* configuration: TLC must find the dropped report.                        *)
 (* Sensitivity switches: Recover = FALSE (a handler panic kills the        *)
 (* process), RetryTemp = FALSE (Serve returns on a temporary accept error).*)
 (***************************************************************************)
 EXTENDS Integers, Sequences, FiniteSets, TLC
-CONSTANTS NConns, MaxMsgs, MaxTempErrs, Recover, RetryTemp
+CONSTANTS NConns, MaxMsgs, MaxTempErrs, Recover, RetryTemp, SequencedBad
 VARIABLES acceptq,   \* what the listener will hand out: seq of "conn" | "temp"
           serving,   \* FALSE once Serve has returned
           alive,     \* process alive
@@ -17,35 +23,47 @@ VARIABLES acceptq,   \* what the listener will hand out: seq of "conn" | "temp"
           sent,      \* conn -> messages sent by the peer so far (faults included)
           answered,  \* conn -> number of requests answered
           faulted,   \* conn -> fault kind or "none"
-          reports    \* error reports offered
-vars == <<acceptq, serving, alive, st, sent, answered, faulted, reports>>
+          reports,   \* error reports offered
+          slot,      \* 1 = a report sits in the one-slot channel
+          received,  \* reports received by the application
+          dropped    \* reports offered while the slot was occupied
+rep == <<reports, slot, received, dropped>>
+vars == <<acceptq, serving, alive, st, sent, answered, faulted, reports, slot, received, dropped>>
 Conns == 1..NConns
 Queues == {q \in UNION {[1..n -> {"conn", "temp"}] : n \in NConns..(NConns + MaxTempErrs)} :
              Cardinality({i \in DOMAIN q : q[i] = "conn"}) = NConns}
 Init == /\ acceptq \in Queues /\ serving = TRUE /\ alive = TRUE
         /\ st = [c \in Conns |-> "pending"] /\ sent = [c \in Conns |-> 0] /\ answered = [c \in Conns |-> 0]
-        /\ faulted = [c \in Conns |-> "none"] /\ reports = 0
+        /\ faulted = [c \in Conns |-> "none"] /\ reports = 0 /\ slot = 0 /\ received = 0 /\ dropped = 0
 NextPending == CHOOSE c \in Conns : st[c] = "pending" /\ \A d \in Conns : st[d] = "pending" => c <= d
 Accept == /\ serving /\ alive /\ acceptq # <<>>
           /\ acceptq' = Tail(acceptq)
           /\ IF Head(acceptq) = "conn" THEN st' = [st EXCEPT ![NextPending] = "open"] /\ UNCHANGED serving
              ELSE UNCHANGED st /\ serving' = RetryTemp
-          /\ UNCHANGED <<alive, sent, answered, faulted, reports>>
+          /\ UNCHANGED <<alive, sent, answered, faulted, rep>>
 Request(c) == /\ alive /\ st[c] = "open" /\ sent[c] < MaxMsgs
               /\ sent' = [sent EXCEPT ![c] = @ + 1] /\ answered' = [answered EXCEPT ![c] = @ + 1]
-              /\ UNCHANGED <<acceptq, serving, alive, st, faulted, reports>>
+              /\ UNCHANGED <<acceptq, serving, alive, st, faulted, rep>>
 Fault(c, k) == /\ alive /\ st[c] = "open" /\ sent[c] < MaxMsgs /\ faulted[c] = "none"
                /\ sent' = [sent EXCEPT ![c] = @ + 1] /\ faulted' = [faulted EXCEPT ![c] = k]
                /\ IF k = "panic" /\ ~Recover THEN alive' = FALSE /\ UNCHANGED st
                   ELSE alive' = alive /\ st' = [st EXCEPT ![c] = "closed"]
-               /\ reports' = IF k = "bad" THEN reports + 1 ELSE reports
+               /\ (k = "bad" /\ SequencedBad) => slot = 0
+               /\ IF k = "bad" THEN /\ reports' = reports + 1 /\ UNCHANGED received
+                                     /\ IF slot = 0 THEN slot' = 1 /\ UNCHANGED dropped ELSE dropped' = dropped + 1 /\ UNCHANGED slot
+                  ELSE UNCHANGED rep
                /\ UNCHANGED <<acceptq, serving, answered>>
-Next == Accept \/ \E c \in Conns : Request(c) \/ \E k \in {"panic", "bad", "eof"} : Fault(c, k)
+\* the application receives from ErrorReports()
+Consume == /\ slot = 1 /\ slot' = 0 /\ received' = received + 1
+           /\ UNCHANGED <<acceptq, serving, alive, st, sent, answered, faulted, reports, dropped>>
+Next == Accept \/ Consume \/ \E c \in Conns : Request(c) \/ \E k \in {"panic", "bad", "eof"} : Fault(c, k)
 Spec == Init /\ [][Next]_vars
 
 \* IsolationObs at design level
 FaultClosesOnlyItsConnection == \A c \in Conns : st[c] = "closed" => faulted[c] # "none"
 HealthyServed == alive /\ \A c \in Conns : (faulted[c] = "none" /\ st[c] = "open") => answered[c] = sent[c]
 UndecodableReported == reports = Cardinality({c \in Conns : faulted[c] = "bad"})
+ReportsAccounted == reports = received + slot + dropped
+NoDrop == dropped = 0
 KeepsAccepting == (acceptq # <<>>) => (serving /\ alive)
 =============================================================================
